@@ -29,13 +29,13 @@ CHECKS = {
          "For each of the 18 storage kinds (6 base kinds, both change-tracking wrappers over each) and each index layout (dense, word/layer-boundary straddling, far apart) the complete reachable state graph (membership x hidden dense tables x slice lengths) under insert/overwrite/get_mut/remove/entry API/get_mut_or_default/drain (full and partial)/clear/mutable joins is explored to its fixed point; every return value, lookup, mask, count, join and slice view is compared with a plain map after every transition.",
          "DESIGN.md §4 C04"),
  "C08": ("mc-store", "explicit-state BFS over single-storage histories with an ownership ledger on every component value",
-         "Same exploration as C04 plus entity deletion (immediate, deferred), lazy insertion (applied, skipped, still queued at teardown) and builder insertion; every component value carries a ledger id; after every transition and after the world is dropped: no value destroyed twice, none returned after destruction, every observed value currently owned by the storage, none leaked (zero-sized kind: construction/destruction counts balance).",
+         "Same exploration as C04 plus entity deletion (immediate, deferred), lazy insertion (applied, skipped, still queued at teardown) and builder insertion; every component value carries a ledger id; after every transition and after the world is dropped: no value destroyed twice, none returned after destruction, every observed value currently owned by the storage, none leaked (zero-sized kind: construction/destruction counts balance). Second part (mc-hist --property C08): the same ledger over world-level histories (builders, lazy insert / insert_all / remove, lazy builders, closures that create and delete, every deletion path, maintain or none) ending with the world — queued actions included — being dropped.",
          "DESIGN.md §4 C08"),
  "C12": ("mc-store", "explicit-state BFS over tracked-storage histories, event-class oracle per operation",
          "For both wrappers over each inner kind: complete state graph (to fixed point) over the C04 alphabet without clear, plus entity deletion, maintain, mutable/lending/maybe/restricted joins with every subset of items written, other-entity mutable lookups, read-only accesses, un-dereferenced mutable access and the emission switch; after every operation the emitted Inserted/Removed sequence must equal the model's exactly, Modified must appear for every mutably accessed component and for none other, nothing while emission is off, and replaying the events reproduces the mask.",
          "DESIGN.md §4 C12"),
  "C19": ("mc-store", "fault enumeration: every destructor call of the last operation and of world teardown panics once, over a BFS of histories",
-         "For every history to depth 3/4 over insert/overwrite/remove/entry removal/drain/clear/entity deletion (single, batch, deferred+maintain)/lazy overwrite/builder, for every storage kind: one extra execution per destructor invocation inside the last operation or the teardown, with that invocation panicking; after catch_unwind the ledger must show no second destruction, no observation may return a destroyed value, follow-up operations on untouched entities and the second storage must behave as the model says, and teardown must not panic again.",
+         "For every history to depth 3/4 over insert/overwrite/remove/entry removal/drain/clear/entity deletion (single, batch, deferred+maintain)/lazy overwrite/builder, for every storage kind: one extra execution per destructor invocation inside the last operation or the teardown, with that invocation panicking; after catch_unwind the ledger must show no second destruction, no observation may return a destroyed value, follow-up operations on untouched entities and the second storage must behave as the model says, a scripted map workout on the re-synchronised storage must agree with a plain map after every step, and teardown must not panic again. Change sets: every add sequence up to length 4/5 followed by clear / drop / full or partial consumption, every destructor call panicking once.",
          "DESIGN.md §4 C19"),
  "C06": ("mc-join", "exhaustive shape enumeration: every membership assignment x member form on the real join machinery",
          "For each of the 18 storage kinds, every content subset of a universe straddling every layer boundary of the hierarchical bit set (0,1,63,64,4095,4096,262143,262144; entities alive, awaiting maintain, pending deletion, dead, dead-and-reused) paired with every subset as a partner bit set: sequential, lending and tuple joins in both member positions, negated, optional, restricted, mutable (marker written through every item, then every direct lookup checked), entries, drain; lookup by entity / by index through the lending iterator for live, dead and stale handles; bit-set combinators and the entities resource; mixed triples; tuple arities 1..16 with every member being the deciding one; compact universes in every insertion order (dense tables permuted).",
